@@ -12,7 +12,7 @@ from typing import Any, Callable
 from .cfg import CFG
 from .db import AnalysisError, FuncInfo, ProgramDB
 from .report import VERIF, Report
-from .variants import Variant, VariantNotApplicable, apply_patch_in_memory, apply_variant, rename_twins
+from .variants import Variant, VariantNotApplicable, apply_patch_in_memory, apply_variant, rename_twins, structural_twins
 
 
 class Ctx:
@@ -107,6 +107,12 @@ def selftest(mod: Any, repo: str, seed: int) -> dict:
             n_twins += 1
             jobs.append(("twin", desc, (mod.__name__, repo, ov, "quick")))
 
+    n_struct = 0
+    for rel in twin_files:
+        for desc, ov in structural_twins(repo, rel):
+            n_struct += 1
+            jobs.append(("stwin", desc, (mod.__name__, repo, ov, "quick")))
+
     results: list[tuple[list[str], str | None]] = []
     if jobs:
         workers = min(16, len(jobs))
@@ -122,6 +128,7 @@ def selftest(mod: Any, repo: str, seed: int) -> dict:
     seeded_total = seeded_detected = 0
     seeded_details: list[dict] = []
     twin_alarms: list[dict] = []
+    struct_alarms: list[dict] = []
     for (kind, obj, _), (fired, err) in zip(jobs, results):
         if kind == "variant":
             v: Variant = obj
@@ -139,6 +146,9 @@ def selftest(mod: Any, repo: str, seed: int) -> dict:
         elif kind == "twin":
             if fired:
                 twin_alarms.append({"twin": obj, "fired": fired, "error": err})
+        elif kind == "stwin":
+            if fired:
+                struct_alarms.append({"twin": obj, "fired": fired, "error": err})
         else:
             seeded_total += 1
             det = bool(fired)
@@ -156,5 +166,6 @@ def selftest(mod: Any, repo: str, seed: int) -> dict:
         "seeded_detected": seeded_detected,
         "seeded": seeded_details,
         "rename_twins": {"files": twin_files, "generated": n_twins, "silent": n_twins - len(twin_alarms), "false_alarms": twin_alarms},
+        "structural_twins": {"families": ["invert-if", "temp-return", "split-and", "flip-compare", "early-continue/guard-to-nest"], "generated": n_struct, "silent": n_struct - len(struct_alarms), "false_alarms": struct_alarms},
         "note": "self-test outcomes never change the exit code of the property check",
     }
